@@ -51,6 +51,17 @@ class _ElemRef:
 def _div(a, b):
     from fractions import Fraction as _F
 
+    if isinstance(b, (int, _F)) and not isinstance(b, bool) and b == 0:
+        # C double division: 0/0 is NaN, x/0 an infinity (no exception)
+        az = a
+        if hasattr(a, "t"):
+            import z3 as _z3
+
+            s_ = _z3.simplify(a.t)
+            az = s_.as_fraction() if _z3.is_rational_value(s_) or _z3.is_int_value(s_) else None
+        if az is None:
+            raise ZeroDivisionError("symbolic numerator over a concrete zero: sign unknown")
+        return NAN if az == 0 else (float("inf") if az > 0 else float("-inf"))
     if isinstance(a, (int, _F)) and isinstance(b, (int, _F)) and not isinstance(a, bool) and not isinstance(b, bool):
         return _F(a) / _F(b)
     return a / b
